@@ -162,6 +162,23 @@ type FaultPlan struct {
 	HoldMax int `json:"hold_max"`
 	// DeleteLowIDOnly: rconf delete never names the highest configured node id.
 	DeleteLowIDOnly bool `json:"delete_low_id_only,omitempty"`
+	// Script: faults fired at fixed points of the workload without consulting
+	// the tape (hand-written and minimised reproducers).
+	Script []ScriptedFault `json:"script,omitempty"`
+}
+
+// ScriptedFault fires once, as soon as AfterAcked client commands have been
+// answered.
+type ScriptedFault struct {
+	AfterAcked int    `json:"after_acked"`
+	Kind       string `json:"kind"` // crash | crash-seam | crash-all | partition | isolate-leader | heal | restart | slow-node
+	Node       int    `json:"node,omitempty"`
+	Seam       string `json:"seam,omitempty"`      // before-sync | after-sync | send | reply
+	Countdown  int    `json:"countdown,omitempty"` // k-th crossing of that seam from now (default 1)
+	// Lose: which unsynced sectors the crash loses: none | all | first | last
+	Lose  string `json:"lose,omitempty"`
+	Hold  int    `json:"hold,omitempty"`
+	fired bool
 }
 
 type Scenario struct {
